@@ -78,6 +78,18 @@ impl Decoder {
         }
     }
 
+    #[cfg(raptorq_verif)]
+    pub fn verif_set_sparse_threshold(&mut self, value: u32) {
+        for block_decoder in self.block_decoders.iter_mut() {
+            block_decoder.verif_set_sparse_threshold(value);
+        }
+    }
+
+    #[cfg(raptorq_verif)]
+    pub fn verif_block_decoders(&self) -> &[SourceBlockDecoder] {
+        &self.block_decoders
+    }
+
     pub fn decode(&mut self, packet: EncodingPacket) -> Option<Vec<u8>> {
         let block_number = packet.payload_id.source_block_number() as usize;
         if self.blocks[block_number].is_none() {
@@ -174,6 +186,33 @@ impl SourceBlockDecoder {
     #[cfg(any(test, feature = "benchmarking"))]
     pub fn set_sparse_threshold(&mut self, value: u32) {
         self.sparse_threshold = value;
+    }
+
+    #[cfg(raptorq_verif)]
+    pub fn verif_set_sparse_threshold(&mut self, value: u32) {
+        self.sparse_threshold = value;
+    }
+
+    /// Canonical, order-independent view of the decoder state:
+    /// (sorted received ESIs, repair ESIs in arrival order, received_source_symbols,
+    ///  number of stored source symbols, decoded flag).
+    #[cfg(raptorq_verif)]
+    pub fn verif_canonical_state(&self) -> (Vec<u32>, Vec<u32>, u32, u32, bool) {
+        let mut esis: Vec<u32> = self.received_esi.iter().copied().collect();
+        esis.sort_unstable();
+        let repair: Vec<u32> = self
+            .repair_packets
+            .iter()
+            .map(|packet| packet.payload_id.encoding_symbol_id())
+            .collect();
+        let stored = self.source_symbols.iter().filter(|x| x.is_some()).count() as u32;
+        (
+            esis,
+            repair,
+            self.received_source_symbols,
+            stored,
+            self.decoded,
+        )
     }
 
     fn unpack_sub_blocks(&self, result: &mut [u8], symbol: &[u8], symbol_index: usize) {
